@@ -25,7 +25,7 @@ def _scan_assumptions(vunits, kunits):
 
 
 def write(here, prop, tier, seed, vunits, kunits, krun, proved_obs, bounded_obs, known_seen, violations,
-          undecided, notes, wall, guards=()):
+          undecided, notes, wall, guards=(), sens=None):
     known_keys = {ob.key() for ob, _ in known_seen}
     counted = [o for o in proved_obs if o.key() not in known_keys]
     discharged = [o for o in counted if o.status == 'discharged']
@@ -93,6 +93,7 @@ def write(here, prop, tier, seed, vunits, kunits, krun, proved_obs, bounded_obs,
                          'counted as proved. A known finding is an obligation that fails on the pinned tree for a '
                          'recorded genuine defect: it is listed under known_findings_seen and counted neither in obligations nor in discharged.'),
             undecided=undecided,
+            sensitivity_selftest=sens,
             vacuity_guards=dict(emitted=len(guards), rejected_as_required=len([g for g in guards if g.status == 'discharged'])),
             notes=notes,
         ),
